@@ -275,7 +275,10 @@ func projectColumns(selectList sql.SelectList, qfields storage.Fields, rows []*s
 				field = &storage.Field{Column: "count(*)"}
 			}
 		case sql.ColumnReference:
-			field = qfields[lookup[elem]]
+			// copy the field: the alias below belongs to this select item
+			// only, the same column may be listed again under another name
+			fieldCopy := *qfields[lookup[elem]]
+			field = &fieldCopy
 		default:
 			field = &storage.Field{Column: "?"}
 		}
